@@ -1227,6 +1227,16 @@ func (p *Parser) relocateNamedObjects(objIndex uint32) parseResult {
 					return parseResultFailed
 				}
 			}
+			// An object cannot be moved into its own subtree: the path
+			// would have to name the object itself (or one of its
+			// descendants) as its new parent, turning the tree into a cycle.
+			for ancestorIndex := targetObj.index; ancestorIndex != InvalidIndex; ancestorIndex = p.objTree.ObjectAt(ancestorIndex).parentIndex {
+				if ancestorIndex == obj.index {
+					kfmt.Fprintf(p.errWriter, "[table: %s, offset: 0x%x] relocation path \"%s\" resolves to the object being relocated\n", p.tableName, obj.amlOffset, namepath[:])
+					return parseResultFailed
+				}
+			}
+
 			p.objTree.detach(p.objTree.ObjectAt(obj.parentIndex), obj)
 			p.objTree.append(targetObj, obj)
 			p.objTree.ObjectAt(obj.firstArgIndex).value = namepath[nameIndex:]
